@@ -604,7 +604,7 @@ func (c *evalCtx) binary(e *Expr) (tval, error) {
 		return tval{t: mk(SBool, op, a.t, b.t), ty: tBool}, nil
 	case "+":
 		if a.t.Sort == SStr {
-			return tval{t: StrCat(a.t, b.t), ty: a.ty}, nil
+			return tval{t: StrCat(a.t, asStr(b.t)), ty: a.ty}, nil
 		}
 		if a.t.Sort == SBytes {
 			bs := b.t
